@@ -403,7 +403,9 @@ func (b *Builder) structHash(t *types.Struct) (ret []byte, pkg string) {
 		}
 		name := f.Name()
 		if f.Embedded() {
-			name = "-"
+			// Keep the field name: with type A = T, struct{A} and struct{T} are different
+			// types; "-" cannot start an identifier, so it still marks the embedding.
+			name = "-" + name
 		}
 		ft, _ := b.TypeName(f.Type())
 		if tag := t.Tag(i); tag != "" {
